@@ -98,8 +98,24 @@ class Runner:
         self.hdr = molgen.header()
         self.forced = 0
 
-    def run(self, ref, mol, order, dove):
+    def query(self, m, dove, path):
+        """One call of get_consensus on molecule m through one of its two return shapes."""
+        try:
+            if path == 'plain':
+                cons = m.get_consensus(dove_safe=dove)
+            else:   # (consensus, phred_scores, consensii) - the shape the TAPS caller uses
+                cons = m.get_consensus(dove_safe=dove, with_probs_and_obs=True)[0]
+        except Exception as ex:  # a crash of the code under test is an observation
+            return {'raised': type(ex).__name__}
+        return {'consensus': [{'c': str(k[0]), 'pos': int(k[1]), 'b': str(v)} for k, v in cons.items()]}
+
+    def run(self, ref, mol, order, dove, kind, incremental=False, probs=True):
+        """Build a fresh molecule, add the fragments in `order`. Returns the list of recorded queries:
+        incremental: after EVERY addition the same object is queried through both return shapes (kind "inc", order = prefix);
+        at the end the plain shape (kind as given) and, with probs, the with_probs_and_obs shape (kind "alt")."""
+        out = []
         m = self.Molecule()
+        common = {'dove': dove, 'run_order': order, 'run_kind': kind, 'incr': incremental}
         for k, i in enumerate(order):
             reads = molgen.build_reads(self.hdr, ref, mol['chrom'], 'f%d_%d' % (i, k), mol['frags'][i - 1],
                                        tags={'SM': 'cellA', 'RX': 'ACG', 'MX': 'verif'})
@@ -107,12 +123,16 @@ class Runner:
             if not m.add_fragment(frag):
                 self.forced += 1
                 m._add_fragment(frag)
+            if incremental and k < len(order) - 1:
+                for path in ('plain', 'probs'):
+                    out.append(dict(common, kind='inc', path=path, order=order[:k + 1], requeried=k > 0 or path == 'probs',
+                                    **self.query(m, dove, path)))
         assert len(m) == len(order)
-        try:
-            cons = m.get_consensus(dove_safe=dove)
-        except Exception as ex:  # a crash of the code under test is an observation
-            return {'raised': type(ex).__name__}
-        return {'consensus': [{'c': str(k[0]), 'pos': int(k[1]), 'b': str(v)} for k, v in cons.items()]}
+        req = incremental and len(order) > 1
+        out.append(dict(common, kind=kind, path='plain', order=order, requeried=req, **self.query(m, dove, 'plain')))
+        if probs:
+            out.append(dict(common, kind='alt', path='probs', order=order, requeried=True, **self.query(m, dove, 'probs')))
+        return out
 
 
 def scenario_to_mol(scn, offset=200):
@@ -163,24 +183,30 @@ def main():
                     rng.shuffle(p)
                     perms.append(p)
                 perms.append(ident[::-1])
+            def go(order, dove, kind, incremental=False):
+                for r in runner.run(ref, mol, order, dove, kind, incremental, probs=True):
+                    emit(dict(r, ev='cons', tid=tid))
             for dove in doves:
-                emit(dict(ev='cons', tid=tid, kind='base', dove=dove, order=ident, **runner.run(ref, mol, ident, dove)))
-                for p in perms:
-                    emit(dict(ev='cons', tid=tid, kind='perm', dove=dove, order=p, **runner.run(ref, mol, p, dove)))
+                go(ident, dove, 'base', incremental=n > 1)      # the same object is queried after every addition
+                for j, p in enumerate(perms):
+                    go(p, dove, 'perm', incremental=(j == 0))
                 dbl = ident + ident
-                emit(dict(ev='cons', tid=tid, kind='dup', dove=dove, order=dbl, **runner.run(ref, mol, dbl, dove)))
+                go(dbl, dove, 'dup', incremental=n > 1 and n <= 4)
                 if n > 1:
                     rng.shuffle(dbl)
-                    emit(dict(ev='cons', tid=tid, kind='dup', dove=dove, order=dbl, **runner.run(ref, mol, dbl, dove)))
+                    go(dbl, dove, 'dup')
 
         if '--replay' in sys.argv:
             case = json.load(open(sys.argv[sys.argv.index('--replay') + 1]))
             mol, e = case['mol'], case['event']
             emit({'ev': 'mol', 'tid': 1, 'chrom': mol['chrom'], 'frags': mol['frags']})
             ident = list(range(1, len(mol['frags']) + 1))
-            emit(dict(ev='cons', tid=1, kind='base', dove=e['dove'], order=ident, **runner.run(ref, mol, ident, e['dove'])))
-            if e['kind'] != 'base':
-                emit(dict(ev='cons', tid=1, kind=e['kind'], dove=e['dove'], order=e['order'], **runner.run(ref, mol, e['order'], e['dove'])))
+            for r in runner.run(ref, mol, ident, e['dove'], 'base', len(ident) > 1, probs=True):   # as in the original run
+                emit(dict(r, ev='cons', tid=1))
+            kind = e.get('run_kind', e['kind'])
+            for r in runner.run(ref, mol, e.get('run_order', e['order']), e['dove'], 'perm' if kind == 'base' else kind,
+                                e.get('incr', False), probs=True):
+                emit(dict(r, ev='cons', tid=1))
             return
 
         # (1) spec -> code: fragments enumerated by TLC (the model's whole fragment universe), alone and combined
@@ -191,7 +217,8 @@ def main():
                 tid += 1
                 mol = scenario_to_mol(s)
                 emit({'ev': 'mol', 'tid': tid, 'chrom': mol['chrom'], 'frags': mol['frags']})
-                emit(dict(ev='cons', tid=tid, kind='base', dove=bool(s['dove']), order=[1], **runner.run(ref, mol, [1], bool(s['dove']))))
+                for r in runner.run(ref, mol, [1], bool(s['dove']), 'base', False, probs=(tid % 4 == 0)):
+                    emit(dict(r, ev='cons', tid=tid))
             pool = {}
             for s in singles:
                 fr = s['frags'][0]
